@@ -7,6 +7,7 @@ import (
 	"encoding/binary"
 	"encoding/json"
 	"fmt"
+	"math/big"
 	"os"
 	"path/filepath"
 	"reflect"
@@ -37,7 +38,14 @@ import (
 type netJob struct {
 	Index int
 	N     int
+	// Deep: every answer is well framed and a well-formed TL value of the right constructor; the lies sit in
+	// the BOC / proof fields (deep.go), and the hand-decoded waitMasterchainSeqno answers are hostile too.
+	Deep bool
 }
+
+// wait-prefixed queries with a seqno from here on are the foreground calls of the check (the pool's own
+// long poll asks for head+1 and stays unanswered)
+const waitMarker = 0x0bad0000
 
 type ctorInfo struct {
 	id     uint32
@@ -164,6 +172,22 @@ type hostile struct {
 	method string
 	kinds  map[string]int
 	txBocs [][]byte
+	deep   bool
+	syn    *synth
+	last   struct {
+		kind string
+		wire []byte
+	}
+}
+
+var digitRuns = regexp.MustCompile(`[0-9]+`)
+
+// kindClass keeps the class of an answer kind (mutation lists and positions dropped) for the coverage sets.
+func kindClass(k string) string {
+	if i := strings.Index(k, ":"); i > 0 {
+		k = k[:i]
+	}
+	return digitRuns.ReplaceAllString(k, "N")
 }
 
 func (h *hostile) interestingBytes() []byte {
@@ -259,14 +283,22 @@ func (h *hostile) answerFor(inner []byte) (answer []byte, kind string, respond b
 		return nil, "", false
 	}
 	fid := binary.LittleEndian.Uint32(inner)
-	if fid == 0xbaeab892 { // waitMasterchainSeqno prefix: the pool's long poll; leave it unanswered
+	if fid == 0xbaeab892 { // waitMasterchainSeqno prefix: the pool's long poll stays unanswered
+		if h.deep && len(inner) >= 8 && binary.LittleEndian.Uint32(inner[4:]) >= waitMarker {
+			a, k := h.waitAnswer()
+			return a, k, true
+		}
 		return nil, "", false
 	}
 	cands := h.schema[fid]
-	if fid == 0x89b5e62e || len(cands) == 0 { // getMasterchainInfo (pool initialisation) gets a proper answer
+	if fid == 0x89b5e62e && (!h.deep || h.method != "GetMasterchainInfo") || len(cands) == 0 { // getMasterchainInfo (pool initialisation) gets a proper answer
 		return masterchainInfo(), "valid-masterchain-info", true
 	}
 	r := h.rng
+	if h.deep {
+		a, k := h.deepAnswer(cands[0])
+		return a, k, true
+	}
 	c := mon.Pick(r, cands)
 	t, ok := registryTypes[c.goType]
 	var body []byte
@@ -352,6 +384,7 @@ func netWorker(w *mon.Worker) {
 		w.HarnessError(fmt.Sprintf("cannot read lite_api.tl: %v (%d functions)", err, len(sch)))
 		return
 	}
+	w.CaseCPULimit = caseCPULimit
 	rng := w.Rng("net", j.Index)
 	h := &hostile{rng: rng, schema: sch, w: w, kinds: map[string]int{}}
 	for _, p := range []string{"tlb/testdata/block-4/block.bin", "tlb/testdata/block-5/block.bin", "ton/testdata/config_proof_4324374.boc"} {
@@ -364,6 +397,12 @@ func netWorker(w *mon.Worker) {
 		return
 	}
 	h.txBocs = realTxBocs()
+	var acc ton.AccountID
+	copy(acc.Address[:], rng.Bytes(32))
+	if j.Deep {
+		h.deep = true
+		h.syn = newSynth(w.Rng("net-synth", j.Index), acc.Address)
+	}
 	id := adnl.NewIdentity(rng.Bytes(32))
 	var nonceMu sync.Mutex
 	nonce := func() [32]byte {
@@ -402,9 +441,14 @@ func netWorker(w *mon.Worker) {
 				continue
 			}
 			wire, akind := h.wrapAnswer(qid, ans)
+			if h.deep {
+				wire, akind = adnl.BuildAnswer(qid, ans), "adnl-ok"
+			}
 			if kind != "valid-masterchain-info" {
-				h.kinds[kind+"/"+akind]++
+				h.last.kind, h.last.wire = kind+"/"+akind, wire
+				h.kinds[kindClass(kind)+"/"+akind]++
 				// the answer the client is about to decode: on disk before it is sent
+				w.End() // a method may ask more than once: one pending case at a time keeps the CPU watchdog armed
 				w.Begin("net/"+h.method+"/"+kind+"/"+akind, wire)
 			} else {
 				wire = adnl.BuildAnswer(qid, ans)
@@ -431,8 +475,6 @@ func netWorker(w *mon.Worker) {
 		w.HarnessError("liteapi.NewClient against the reference server: " + err.Error())
 		return
 	}
-	var acc ton.AccountID
-	copy(acc.Address[:], rng.Bytes(32))
 	blk := ton.BlockIDExt{BlockID: ton.BlockID{Workchain: -1, Shard: 0x8000000000000000, Seqno: 100}}
 	type call struct {
 		name string
@@ -472,6 +514,69 @@ func netWorker(w *mon.Worker) {
 		{"GetState", func(ctx context.Context) error { _, _, _, err := cli.GetState(ctx, blk); return err }},
 		{"GetBlockRaw", func(ctx context.Context) error { _, err := cli.GetBlockRaw(ctx, blk); return err }},
 	}
+	if j.Deep {
+		// a second, bare liteclient.Client for the two hand-written wait decoders of liteclient/client.go
+		var lc *liteclient.Client
+		ctx1, cancel1 := context.WithTimeout(context.Background(), 10*time.Second)
+		if conn, err := liteclient.NewConnection(ctx1, id.Pub[:], srv.Addr()); err == nil {
+			lc = liteclient.NewClient(conn, liteclient.OptionTimeout(500*time.Millisecond))
+		}
+		cancel1()
+		if lc == nil {
+			w.HarnessError("liteclient.NewConnection against the reference server failed")
+			return
+		}
+		waitSeq := uint32(waitMarker)
+		extMsg := rawBoc(&hcell{bits: append(append([]bool{true, false, false, false, true, false, false}, uintBits(0, 8)...), append(bytesBits(acc.Address[:]), make([]bool, 6)...)...)})
+		bits256 := ton.Bits256{7}
+		one := uint32(1)
+		calls = append(calls, []call{
+			{"GetValidatorStats", func(ctx context.Context) error {
+				_, err := cli.GetValidatorStats(ctx, 0, 10, &bits256, &one)
+				return err
+			}},
+			{"GetConfigParams", func(ctx context.Context) error { _, err := cli.GetConfigParams(ctx, 0, []uint32{0, 4, 34}); return err }},
+			{"GetLastTransactions", func(ctx context.Context) error { _, err := cli.GetLastTransactions(ctx, acc, 5); return err }},
+			{"GetRootDNS", func(ctx context.Context) error { _, err := cli.GetRootDNS(ctx); return err }},
+			{"GetJettonWallet", func(ctx context.Context) error { _, err := cli.GetJettonWallet(ctx, acc, acc); return err }},
+			{"GetJettonData", func(ctx context.Context) error { _, err := cli.GetJettonData(ctx, acc); return err }},
+			{"GetJettonBalance", func(ctx context.Context) error { _, err := cli.GetJettonBalance(ctx, acc); return err }},
+			{"DnsResolve", func(ctx context.Context) error {
+				_, _, err := cli.DnsResolve(ctx, acc, "ton", big.NewInt(0))
+				return err
+			}},
+			{"GetSeqno", func(ctx context.Context) error { _, err := cli.GetSeqno(ctx, acc); return err }},
+			{"ListBlockTransactions", func(ctx context.Context) error {
+				_, _, err := cli.ListBlockTransactions(ctx, blk, 7, 10, nil)
+				return err
+			}},
+			{"GetBlockProof", func(ctx context.Context) error { _, err := cli.GetBlockProof(ctx, blk, &blk); return err }},
+			{"GetShardBlockProof", func(ctx context.Context) error { _, err := cli.GetShardBlockProof(ctx); return err }},
+			{"GetOutMsgQueueSizes", func(ctx context.Context) error { _, err := cli.GetOutMsgQueueSizes(ctx); return err }},
+			{"GetTime", func(ctx context.Context) error { _, err := cli.GetTime(ctx); return err }},
+			{"GetVersion", func(ctx context.Context) error { _, err := cli.GetVersion(ctx); return err }},
+			{"GetMasterchainInfo", func(ctx context.Context) error { _, err := cli.GetMasterchainInfo(ctx); return err }},
+			{"GetNetworkGlobalID", func(ctx context.Context) error { _, err := cli.GetNetworkGlobalID(ctx); return err }},
+			{"SendMessage", func(ctx context.Context) error { _, err := cli.SendMessage(ctx, extMsg); return err }},
+			{"liteapi.WaitMasterchainBlock", func(ctx context.Context) error {
+				waitSeq++
+				_, err := cli.WaitMasterchainBlock(ctx, waitSeq, 100*time.Millisecond)
+				return err
+			}},
+			{"liteclient.WaitMasterchainBlock", func(ctx context.Context) error {
+				waitSeq++
+				_, err := lc.WaitMasterchainBlock(ctx, waitSeq, 100)
+				return err
+			}},
+			{"liteclient.WaitMasterchainSeqno", func(ctx context.Context) error {
+				waitSeq++
+				return lc.WaitMasterchainSeqno(ctx, waitSeq, 100)
+			}},
+			// the methods with a proof to decode once more: they carry most of the lies
+			{"GetAccountState", calls[0].f}, {"GetBlockHeader", calls[4].f}, {"GetConfigAll", calls[5].f}, {"GetAllShardsInfo", calls[6].f},
+			{"GetTransactions", calls[1].f}, {"GetAccountState", calls[0].f}, {"LookupBlock", calls[3].f},
+		}...)
+	}
 	for k := 0; k < j.N; k++ {
 		c := calls[k%len(calls)]
 		h.mu.Lock()
@@ -479,13 +584,23 @@ func netWorker(w *mon.Worker) {
 		h.mu.Unlock()
 		ctx, cancel := context.WithTimeout(context.Background(), 350*time.Millisecond)
 		var cerr error
+		w.Note(c.name)
 		m := mon.StartMeter()
 		p := mon.Guard(func() { cerr = c.f(ctx) })
 		cpu, alloc, _ := m.Stop()
 		cancel()
+		h.mu.Lock()
 		w.End()
+		h.mu.Unlock()
 		if p != nil {
-			w.Violation("panic@"+p.Site+"/liteapi."+c.name+"/"+mon.PanicClass(p.Value), map[string]any{"method": c.name, "panic": p.Value, "stack": mon.Trunc(p.Stack, 1800)})
+			site := "/liteapi." + c.name
+			if strings.Contains(c.name, ".") {
+				site = "/" + c.name
+			}
+			h.mu.Lock()
+			last := h.last
+			h.mu.Unlock()
+			w.Violation("panic@"+p.Site+site+"/"+mon.PanicClass(p.Value), map[string]any{"method": c.name, "panic": p.Value, "stack": mon.Trunc(p.Stack, 1800), "answer_kind": last.kind, "answer_hex": mon.HexTrunc(last.wire, 6000)})
 		}
 		if alloc > 256<<20 {
 			w.Violation("alloc-out-of-proportion@liteapi."+c.name, map[string]any{"method": c.name, "alloc_bytes": alloc})
@@ -500,10 +615,26 @@ func netWorker(w *mon.Worker) {
 		w.Eval(fmt.Sprintf("net/%d/%s/%d/%s", j.Index, c.name, k, outcome))
 		w.Count("net_"+outcome, 1)
 		w.Seen("net_methods", c.name)
+		if j.Deep {
+			w.Count("net_deep_"+outcome, 1)
+			h.mu.Lock()
+			last := h.last.kind
+			h.mu.Unlock()
+			if outcome == "ok" {
+				w.Seen("net_deep_methods_ok", c.name)
+				if strings.Contains(last, "/valid/") {
+					w.Seen("net_deep_valid_accepted", c.name)
+				}
+			}
+		}
 	}
 	h.mu.Lock()
 	for k := range h.kinds {
-		w.Seen("net_answer_kinds", k)
+		if j.Deep {
+			w.Seen("net_deep_answer_kinds", k)
+		} else {
+			w.Seen("net_answer_kinds", k)
+		}
 	}
 	h.mu.Unlock()
 }
